@@ -176,6 +176,51 @@ def _reoriented(sx, pts, perm, observer, ceiling, free, tag):
     return loft.point_array
 
 
+def run_reorient_reuse(sx, other, free):
+    """one ViewpointReorienter applied to several blocks in turn (as in the library's own chaining examples): every block
+    is oriented by where IT is relative to the observer, not by where an earlier block was. Concrete geometry (what is
+    quantified is the call sequence, the initial numbering and the hull's choice of face diagonals)"""
+    observer, ceiling = sx.vec(15, -20, 3), sx.vec(17, -12, 60)
+    # seen from the observer: block 1 shows its -y side (mostly), block 2 its -x side, block 3 its +x side
+    places = [sx.vec(0, 0, 0), sx.vec(40, -22, 0), sx.vec(-25, -19, 1)]
+    re = cb.ViewpointReorienter(observer, ceiling)
+    perm = numbering(other)
+    inv = {perm[i]: i for i in range(8)}
+    for bi, t in enumerate(places):
+        pts = [sx.arr(list(p)) + t for p in HEX]
+        P = [pts[perm[i]] for i in range(8)] if bi else pts
+        _FACES["quads"] = [[(inv[c] if bi else c) for c in f] for f in HEX_FACES]
+        _FACES["free"] = free if bi == 1 else []
+        _FACES["tag"] = f"r{bi}"
+        loft = cb.Loft(cb.Face(P[:4]), cb.Face(P[4:]))
+        try:
+            re.reorient(loft)
+        finally:
+            _FACES["quads"] = None
+        A = loft.point_array
+        sx.reach("reorient")
+        tag = f"block {bi + 1} of 3 given to the same reorienter (numbering {other if bi else 0})"
+        conds = [sx.any([sx.all([sx.close(x, y, 1e-9) for x, y in zip(p, a)]) for a in A]) for p in pts]
+        sx.prove(sx.all(conds), f"{tag}: the result has the same eight points", "C18:reorient:reuse:points")
+        e1, e2, e3 = A[1] - A[0], A[3] - A[0], A[4] - A[0]
+        cr = [e1[1] * e2[2] - e1[2] * e2[1], e1[2] * e2[0] - e1[0] * e2[2], e1[0] * e2[1] - e1[1] * e2[0]]
+        sx.prove(cr[0] * e3[0] + cr[1] * e3[1] + cr[2] * e3[2] > 0, f"{tag}: right-handed", "C18:reorient:reuse:right-handed")
+        cA = (A[0] + A[1] + A[2] + A[3] + A[4] + A[5] + A[6] + A[7]) / 8
+
+        def towards(idx, target):
+            fc = (A[idx[0]] + A[idx[1]] + A[idx[2]] + A[idx[3]]) / 4
+            out, to = fc - cA, target - cA
+            return out[0] * to[0] + out[1] * to[1] + out[2] * to[2]
+        sides = {"front": (0, 1, 5, 4), "back": (3, 2, 6, 7), "left": (0, 3, 7, 4), "right": (1, 2, 6, 5), "top": (4, 5, 6, 7),
+                 "bottom": (0, 1, 2, 3)}
+        f_ = {k: towards(v, observer) for k, v in sides.items()}
+        sx.prove(sx.all([f_["front"] > 0] + [f_["front"] >= f_[k] for k in ("back", "left", "right")]),
+                 f"{tag}: of the four lateral sides, the front side faces the observer most", "C18:reorient:reuse:front")
+        sx.prove(sx.all([towards(sides["top"], ceiling) > 0, towards(sides["top"], ceiling) > towards(sides["bottom"], ceiling)]),
+                 f"{tag}: the top side faces the ceiling point", "C18:reorient:reuse:top")
+    return "reorient"
+
+
 DIRS = [((0.2, 0.1), (0.1, 0.15)), ((-0.3, 0.25), (-0.2, 0.3)), ((0.0, -0.3), (0.3, -0.1))]
 
 
@@ -266,6 +311,9 @@ def jobs(tier, seed):
         js.append({"name": f"reorient|identity vs {o}|dirs {k % 3}", "fn": "run_reorient",
                    "params": {"other": o, "free": [0, 3] if tier == "quick" else [0, 1, 2, 3, 4, 5], "dirs": k % 3,
                               "symbolic_dirs": tier == "thorough" and k % 8 == 0, "symbolic_dist": k % 2 == 1}})
+    for o in ((0, 17) if tier == "quick" else (0, 5, 17, 29, 40)):
+        js.append({"name": f"reorient|one reorienter, three blocks|numbering {o}", "fn": "run_reorient_reuse",
+                   "params": {"other": o, "free": [0, 3]}})
     for j in js:
         j["budget_s"] = 280 if tier == "quick" else 1500
         j["timeout_ms"] = 20000 if tier == "quick" else 90000
